@@ -252,7 +252,7 @@ def _keys_and_identity(ctx, loader, master, func, graph, facts):
         N.txt(t) == 'self.identity' for t, _v, _k in K.assigns_attr(n))]
     ctx.require(stores, 'store of self.identity in force_set_identity')
     for node in stores:
-        extra = [N.show(f) for f in N.raw_only(ffacts[node])
+        extra = [N.show(f) for f in N.canonical(ffacts[node])
                  if not (f.key[0] == 'is' and not f.key[3] and
                          f.key[1] == param and f.key[2] == 'None') and
                  not (f.key[0] == 'truth' and f.key[2] and
